@@ -114,14 +114,34 @@ func init() {
 		if err == nil {
 			// path concatenation: deriving step by step gives the same key
 			k, err2 := slip10.NewMasterKey(unhx(a[1]), slipCurve(a[0]))
+			nodes := []*slip10.ExtendedKey{k}
+			snaps := []string{showExt(k, err2)}
 			for _, i := range path {
 				if err2 != nil {
 					break
 				}
 				k, err2 = k.DeriveChild(i)
+				nodes = append(nodes, k)
+				snaps = append(snaps, showExt(k, err2))
 			}
 			if err2 != nil || showExt(k, nil) != showExt(e, nil) {
 				return "stepwise-differs"
+			}
+			// results handed out earlier must not change when siblings are derived from the same nodes afterwards,
+			// and deriving the same child again must give the same key (no state carried inside an ExtendedKey)
+			for j := range nodes[:len(nodes)-1] {
+				nodes[j].DeriveChild(path[j] ^ 1)
+				nodes[j].DeriveChild(path[j] ^ 0x40000000)
+			}
+			for j := range nodes {
+				if showExt(nodes[j], nil) != snaps[j] {
+					return "earlier-result-changed-by-later-derivation"
+				}
+			}
+			for j := range nodes[:len(nodes)-1] {
+				if again, err3 := nodes[j].DeriveChild(path[j]); err3 != nil || showExt(again, nil) != snaps[j+1] {
+					return "second-derivation-differs"
+				}
 			}
 		}
 		return showExt(e, err)
@@ -199,6 +219,17 @@ func (g *G) path(maxLen int, hardenedOnly bool) []uint32 {
 	return p
 }
 
+// the coordinates themselves are inspected, not the serialization under test
+func leadingZeroX(k slip10.Key) bool {
+	pk, ok := k.(*elliptic.PublicKey)
+	return ok && pk.X != nil && pk.X.BitLen() <= 248
+}
+
+func leadingZeroK(k slip10.Key) bool {
+	sk, ok := k.(*elliptic.PrivateKey)
+	return ok && sk.K != nil && sk.K.BitLen() <= 248
+}
+
 func genC02(g *G) {
 	n := 6
 	if g.thorough {
@@ -214,6 +245,39 @@ func genC02(g *G) {
 		}
 		for i := 0; i < n; i++ {
 			g.emit("slip10.derive", cv, hx(g.r.bytes(16+g.r.intn(49))), csvU32(g.path(6, cv == "ed")))
+		}
+	}
+	// keys whose serialization has leading zero bytes (public x, private scalar, chain code: each 1 in 256): found by
+	// search over sibling indices with the real package, then derived through and below (the serialized public key of such
+	// a node is the HMAC input of its non-hardened children)
+	for _, cv := range []string{"k1", "p256"} {
+		seed := g.r.bytes(32)
+		parent, err := slip10.DeriveKeyFromPath(seed, slipCurve(cv), []uint32{1<<31 | 44})
+		if err != nil {
+			continue
+		}
+		found := map[string]bool{}
+		for i := uint32(0); i < 4000 && len(found) < 3; i++ {
+			c, err := parent.DeriveChild(i)
+			if err != nil {
+				continue
+			}
+			kind := ""
+			switch {
+			case leadingZeroX(c.Key.Public()):
+				kind = "pub"
+			case leadingZeroK(c.Key):
+				kind = "priv"
+			case c.ChainCode[0] == 0:
+				kind = "cc"
+			}
+			if kind == "" || found[kind] {
+				continue
+			}
+			found[kind] = true
+			g.emit("slip10.derive", cv, hx(seed), csvU32([]uint32{1<<31 | 44, i, uint32(g.r.intn(1000))}))
+			g.emit("slip10.derive", cv, hx(seed), csvU32([]uint32{1<<31 | 44, i, 1<<31 | uint32(g.r.intn(1000))}))
+			g.emit("slip10.pubderive", cv, hx(seed), csvU32([]uint32{1<<31 | 44, i}), csvU32([]uint32{uint32(g.r.intn(1000))}))
 		}
 	}
 	// undefined derivations: non-hardened on ed25519 (private and public), hardened child of a public key
